@@ -208,4 +208,42 @@ theorem parseDex_build (hwf : WF T L) (hc : Consistent T L size) (hi : ItemsOk T
     parseDex (build T L size) = .ok (declared T L) :=
   parseDex_declared (encodes_build hc hi) hwf
 
+/-! ### the well-formedness hypotheses cannot be dropped -/
+
+namespace NoStrings
+
+/-- one type id, no string_ids section -/
+def tabs : Tables :=
+  { strings := [], stringIds := [], typeIds := [0], protoIds := [], fieldIds := [], methodIds := [],
+    typeLists := [], classData := [], codes := [], classDefs := [] }
+
+def lay : Layout := ⟨0x80, [⟨0x0002, 1, 0x70⟩, ⟨0x1000, 1, 0x80⟩]⟩
+
+theorem itemsOk : ItemsOk tabs where
+  strItem := by intro x h; cases h
+  tlPad := by intro x h; cases h
+  cdEnc := by intro x h; cases h
+  codeRest := by intro x h; cases h
+
+theorem consistent : Consistent tabs lay 0xa0 := by decide +kernel
+
+def isErr (msg : String) : Except String DexV → Bool
+  | .error e => e == msg
+  | .ok _ => false
+
+theorem isErr_eq {msg : String} {r : Except String DexV} (h : isErr msg r = true) : r = .error msg := by
+  cases r with
+  | error e => simp only [isErr, beq_iff_eq] at h; rw [h]
+  | ok _ => simp [isErr] at h
+
+theorem fails : parseDex (build tabs lay 0xa0) = .error "KeyError" := isErr_eq (by decide +kernel)
+
+end NoStrings
+
+/-- a file that encodes tables which are not well-formed (a type_ids section without a string_ids
+    section): the loader raises KeyError (as the real one does: TypeIdItem.__init__ → get_string) -/
+theorem encodes_not_enough :
+    ∃ file L T, Encodes file L T ∧ parseDex file = .error "KeyError" :=
+  ⟨_, NoStrings.lay, NoStrings.tabs, encodes_build NoStrings.consistent NoStrings.itemsOk, NoStrings.fails⟩
+
 end AgVerif.C05
